@@ -199,6 +199,52 @@ static void lp_run (long item)
 				viol ("C04", "repeat-differs", "second solve of the same object returned rval=%d status=%s, first rval=%d status=%s: %s", o2->rval, status_name (o2->status), o->rval, status_name (o->status), desc);
 			}
 		}
+		/* ---- C12: a basis handed back with OPTIMAL */
+		if (o->rval == 0 && o->status == QS_LP_OPTIMAL && wf) {
+			if (!o->basis || o->basis->nstruct != L->n || o->basis->nrows != L->m) {
+				if (exact || o->basis) { lp_desc (L, &x, desc, sizeof desc); viol ("C12", "returned-basis-missing", "OPTIMAL but no basis of the right size was handed back: %s", desc); }
+			} else {
+				STAT ("c12_returned_bases");
+				int nb = 0;
+				for (int j = 0; j < L->n; j++) if (o->basis->cstat[j] == QS_COL_BSTAT_BASIC) nb++;
+				for (int i = 0; i < L->m; i++) if (o->basis->rstat[i] == QS_ROW_BSTAT_BASIC) nb++;
+				if (nb != L->m) { lp_desc (L, &x, desc, sizeof desc); viol ("C12", "returned-basis-count", "returned basis has %d basic variables for %d rows (cstat=%.*s rstat=%.*s): %s", nb, L->m, L->n, o->basis->cstat, L->m, o->basis->rstat, desc); }
+				else {
+					SF *S = sf_from_ref (Lc);
+					BasisSol *B = obasis_solve (S, o->basis->cstat, o->basis->rstat);
+					if (B->valid && !B->singular) {
+						STAT ("c12_returned_nonsingular");
+						int same = 1;
+						for (int j = 0; j < L->n && same; j++) if (!mpq_equal (B->z[j], o->ax[j])) same = 0;
+						for (int i = 0; i < L->m && same; i++) if (!mpq_equal (B->z[L->n + i], o->aslack[i])) same = 0;
+						if (!B->pfeas || !B->dfeas || !same || !mpq_equal (B->pobj, o->objval)) {
+							lp_desc (L, &x, desc, sizeof desc);
+							viol ("C12", "returned-basis-not-optimal", "exact basic solution of the returned basis (cstat=%.*s rstat=%.*s) is primal %s, dual %s, %s the reported x, objective %s: %s", L->n, o->basis->cstat, L->m, o->basis->rstat, B->pfeas ? "feasible" : "INFEASIBLE", B->dfeas ? "feasible" : "INFEASIBLE", same ? "equals" : "DIFFERS from", mpq_equal (B->pobj, o->objval) ? "equal" : "DIFFERENT", desc);
+						}
+						/* the verdict function and a warm-started solve must confirm it */
+						mpq_QSprob p2 = qsx_build (L, ROUTE_LOAD, 0);
+						if (p2) {
+							char res = 9;
+							int rv = QSexact_basis_optimalstatus (p2, o->basis, &res, 1);
+							if (rv || res != 1) { lp_desc (L, &x, desc, sizeof desc); viol ("C12", "returned-basis-not-confirmed", "QSexact_basis_optimalstatus gives rv=%d result=%d for the basis returned with OPTIMAL: %s", rv, res, desc); }
+							mpq_QSfree_prob (p2);
+							p2 = qsx_build (L, ROUTE_LOAD, 0);
+							if (p2) {
+								QSbasis *wb = qsx_basis_dup (o->basis);
+								int st2 = 0, rv2 = QSexact_solver (p2, NULL, NULL, wb, DUAL_SIMPLEX, &st2);
+								mpq_t v2; mpq_init (v2);
+								if (rv2 || st2 != QS_LP_OPTIMAL || mpq_QSget_objval (p2, &v2) || !mpq_equal (v2, o->objval)) { lp_desc (L, &x, desc, sizeof desc); viol ("C12", "returned-basis-warmstart", "warm-started solve from the returned basis gives rv=%d status=%s: %s", rv2, status_name (st2), desc); }
+								mpq_clear (v2);
+								mpq_QSfree_basis (wb);
+								mpq_QSfree_prob (p2);
+							}
+						}
+					} else STAT ("c12_returned_singular_or_invalid");
+					obasis_free (B, S);
+					sf_free (S);
+				}
+			}
+		}
 		if (k == 0 && sample_wanted ()) {
 			lp_desc (L, &x, desc, sizeof desc);
 			sample ("%s%s%s -> rval=%d status=%s truth=%s", label, label[0] ? ": " : "", desc, o->rval, status_name (o->status), T->status == TRUTH_OPTIMAL ? "OPTIMAL" : T->status == TRUTH_INFEASIBLE ? "INFEASIBLE" : T->status == TRUTH_UNBOUNDED ? "UNBOUNDED" : "UNKNOWN");
